@@ -85,14 +85,15 @@ type Result struct {
 	PanicSite string
 	Abort     *RevertReport // the real RevertToSnapshot panicked
 
-	Before    fx.Obs
-	After     fx.Obs
-	JBefore   int
-	Journal   []LogInfo // change logs appended since Begin
-	LogDigest string    // digest over all change logs of the manager
-	Tr        *Tracer
-	Px        *Proxy
-	AM        *account.Manager
+	Before       fx.Obs
+	After        fx.Obs
+	JBefore      int
+	Journal      []LogInfo // change logs appended since Begin
+	LogDigest    string    // digest over all change logs of the manager
+	FramesJudged int64
+	Tr           *Tracer
+	Px           *Proxy
+	AM           *account.Manager
 }
 
 // RunOpts tunes RunCase.
@@ -102,8 +103,11 @@ type RunOpts struct {
 	StaticMarks bool
 }
 
-// StaticFinding is a nested STATICCALL whose frame changed state.
+// StaticFinding is a nested frame (STATICCALL, or a call / create that reported failure) that changed state.
 type StaticFinding struct {
+	Static  bool
+	Failed  bool
+	Op      string
 	Depth   int
 	Diff    []string
 	Journal []LogInfo
@@ -195,39 +199,64 @@ func (b *Base) RunCase(c *Case, o RunOpts) (res *Result, statics []StaticFinding
 	res.Before = px.Base.Obs
 	res.JBefore = px.Base.JLen
 
-	// nested STATICCALL clause
+	// frame-exit clause: at every CALL / CALLCODE / DELEGATECALL / STATICCALL / CREATE instruction the state is
+	// observed; when the issuing frame executes its next instruction the result flag is on top of the stack:
+	// a STATICCALL must have changed nothing, a failed call / create nothing but failure events
 	type mark struct {
-		depth int
-		snap  *Snap
+		depth  int
+		static bool
+		op     string
+		snap   *Snap
 	}
-	var pending *mark
-	resolve := func(depth int) {
-		if pending == nil || depth > pending.depth {
-			return
+	var marks []*mark
+	setExtra := func() {
+		px.Extra = px.Extra[:0]
+		for _, m := range marks {
+			px.Extra = append(px.Extra, m.snap)
 		}
+	}
+	judge := func(m *mark, failed bool) {
+		res.FramesJudged++
 		after := px.Now()
 		logs := am.GetChangeLogs()
 		var seg types.ChangeLogSlice
-		if pending.snap.JLen <= len(logs) {
-			seg = logs[pending.snap.JLen:]
+		if m.snap.JLen <= len(logs) {
+			seg = logs[m.snap.JLen:]
 		}
-		px.Extra = nil
-		d := fx.Diff(pending.snap.Obs, after, 8)
+		d := fx.Diff(m.snap.Obs, after, 8)
 		bad := OnlyFailureEvents(seg)
 		if len(d) > 0 || bad != "" {
 			if bad != "" {
 				d = append(d, "journal: "+bad)
 			}
-			statics = append(statics, StaticFinding{Depth: pending.depth, Diff: d, Journal: logInfos(seg)})
+			statics = append(statics, StaticFinding{Depth: m.depth, Static: m.static, Failed: failed, Op: m.op, Diff: d, Journal: logInfos(seg)})
 		}
-		pending = nil
 	}
 	if o.StaticMarks {
-		tr.OnStep = func(op vm.OpCode, depth int) {
-			resolve(depth)
-			if op == vm.STATICCALL && pending == nil {
-				pending = &mark{depth: depth, snap: &Snap{ID: -2, Obs: px.Now(), JLen: account.VerifJournalLen(am)}}
-				px.Extra = []*Snap{pending.snap}
+		tr.OnStep = func(op vm.OpCode, depth int, stack *vm.Stack) {
+			// frames that died never come back: drop their marks
+			for len(marks) > 0 && marks[len(marks)-1].depth > depth {
+				marks = marks[:len(marks)-1]
+			}
+			if len(marks) > 0 && marks[len(marks)-1].depth == depth {
+				m := marks[len(marks)-1]
+				marks = marks[:len(marks)-1]
+				failed := false
+				if d := stack.Data(); len(d) > 0 && d[len(d)-1].Sign() == 0 {
+					failed = true
+				}
+				if m.static || failed {
+					judge(m, failed)
+				}
+				setExtra()
+			}
+			if isCallOp(op) || op == vm.CREATE {
+				inStatic := op == vm.STATICCALL
+				for _, m := range marks {
+					inStatic = inStatic || m.static
+				}
+				marks = append(marks, &mark{depth: depth, static: inStatic, op: op.String(), snap: &Snap{ID: -2, Obs: px.Now(), JLen: account.VerifJournalLen(am)}})
+				setExtra()
 			}
 		}
 	}
@@ -270,9 +299,7 @@ func (b *Base) RunCase(c *Case, o RunOpts) (res *Result, statics []StaticFinding
 		}
 	}()
 	if res.Abort == nil && res.Panic == "" {
-		if o.StaticMarks {
-			resolve(0)
-		}
+		px.Extra = nil
 		res.After = px.Now()
 		logs := am.GetChangeLogs()
 		if res.JBefore <= len(logs) {
